@@ -70,7 +70,7 @@ func (x *Exec) oblige(st *State, kind, name string, cond *Term, n ast.Node) {
 	if x.dry > 0 {
 		return
 	}
-	if kind != "ensures" && kind != "invariant-entry" && kind != "invariant-step" && kind != "requires" && kind != "assert" && kind != "modifies" && kind != "lemma" {
+	if kind != "ensures" && kind != "invariant-entry" && kind != "invariant-step" && kind != "requires" && kind != "assert" && kind != "modifies" && kind != "lemma" && kind != "writes-fresh" {
 		// safety-class obligations
 		if !x.safety {
 			return
@@ -587,10 +587,40 @@ func (x *Exec) runLoop(spec *LoopSpec, ord int, label string, st *State, cond fu
 	lc := &loopCtx{label: label}
 	f.loops = append(f.loops, lc)
 	var after *State
+	var realLog *WriteLog
+	if spec.WritesFresh {
+		realLog = &WriteLog{vars: map[types.Object]bool{}, parent: bst.wlog}
+		bst.wlog = realLog
+	}
 	if bst.guard != False {
 		after = body(bst)
 	}
 	f.loops = f.loops[:len(f.loops)-1]
+	if realLog != nil {
+		a0 := x.old.allocTop()
+		seenW := map[[2]*Term]bool{}
+		for _, w := range realLog.heap {
+			if w.ref == nil || w.guard == nil {
+				continue
+			}
+			if x.maxSym(w.ref) <= mark && !(Lt(w.ref, topAtEntry) == False) {
+				continue // loop-invariant reference: handled by the specific frame
+			}
+			key := [2]*Term{w.ref, w.guard}
+			if seenW[key] {
+				continue
+			}
+			seenW[key] = true
+			ws := &State{guard: w.guard}
+			x.oblige(ws, "writes-fresh", name+"/"+frameName(w.key), Ge(w.ref, a0), n)
+		}
+		// restore the log chain of states leaving the loop
+		for _, s2 := range append(append([]*State{after}, lc.breaks...), lc.continues...) {
+			if s2 != nil && s2.wlog == realLog {
+				s2.wlog = realLog.parent
+			}
+		}
+	}
 	after = x.mergeAll(append([]*State{after}, lc.continues...))
 	if after != nil {
 		after = post(after)
@@ -653,6 +683,7 @@ func (x *Exec) applyLoopHavoc(nh, pre *State, wl *WriteLog, top *Term, mark int,
 	}
 	// heap
 	var ws []heapWrite
+	freshOnly := map[string]bool{}
 	for _, w := range wl.heap {
 		if w.ref == nil {
 			ws = append(ws, w)
@@ -667,7 +698,11 @@ func (x *Exec) applyLoopHavoc(nh, pre *State, wl *WriteLog, top *Term, mark int,
 			if b, _, ok := splitOffset(w.ref); ok && b != nil && x.symMark[b] > mark && strings.HasPrefix(b.Name, "alloc!") {
 				continue
 			}
-			ws = append(ws, heapWrite{w.key, nil})
+			if spec != nil && spec.WritesFresh {
+				freshOnly[w.key] = true
+				continue
+			}
+			ws = append(ws, heapWrite{w.key, nil, nil})
 			continue
 		}
 		ws = append(ws, w)
@@ -683,11 +718,51 @@ func (x *Exec) applyLoopHavoc(nh, pre *State, wl *WriteLog, top *Term, mark int,
 	}
 	for k := range keys {
 		if !have[k] {
-			ws = append(ws, heapWrite{k, top}) // dummy ref >= top: filtered by havocHeap
+			ws = append(ws, heapWrite{k, top, nil}) // dummy ref >= top: filtered by havocHeap
 		}
 	}
 	x.havocHeap(nh, ws, top)
+	// keys written through loop-variant references under `writes_fresh`: only objects that
+	// existed at function entry are known to be unchanged
+	for k := range freshOnly {
+		whole := false
+		for _, w := range ws {
+			if w.key == k && w.ref == nil {
+				whole = true
+			}
+		}
+		if whole {
+			continue
+		}
+		cur := nh.heap[k]
+		pre0 := pre.hget(k, heapSorts[k])
+		if cur == pre0 {
+			// not havocked yet
+			cur = x.fresh("hv."+k, heapSorts[k])
+			nh.heap[k] = cur
+			// still agrees with pre-state on specific loop-invariant exclusions? be conservative: only entry objects
+		}
+		srt := heapSorts[k]
+		r := Var("r!", IntS)
+		a0 := x.old.allocTop()
+		body := Implies(Lt(r, a0), mk("=", "", BoolS, nil, mk("select", "", srt.Rng, nil, cur, r), mk("select", "", srt.Rng, nil, pre0, r)))
+		// entry objects that the loop may write through loop-invariant refs are excluded by havocHeap's own axiom;
+		// here we need them excluded too
+		var excl []*Term
+		for _, w := range ws {
+			if w.key == k && w.ref != nil && Lt(w.ref, top) != False {
+				excl = append(excl, Not(Eq(r, w.ref)))
+			}
+		}
+		if len(excl) > 0 {
+			body = Implies(And(append([]*Term{Lt(r, a0)}, excl...)...), mk("=", "", BoolS, nil, mk("select", "", srt.Rng, nil, cur, r), mk("select", "", srt.Rng, nil, pre0, r)))
+		}
+		x.vc.assume(Forall([]*Term{r}, body, mk("select", "", srt.Rng, nil, cur, r)))
+	}
 	sig := x.havocSig(wl, ws)
+	for k := range freshOnly {
+		sig += ";fresh:" + k
+	}
 	nh.env[havocSigObj] = &Value{Tm: Var(sig, BoolS)}
 	return func(prev *State) bool {
 		pv, ok := prev.env[havocSigObj]
